@@ -88,7 +88,10 @@ WorldA == MkWorld([a1 |-> [NoTags EXCEPT !.v1 = "M1", !.ix = "IX"], a2 |-> NoTag
                    b1 |-> [NoTags EXCEPT !.v1 = "M2"], lay |-> [NoTags EXCEPT !.v1 = "M1", !.ix = "IX"]])
 WorldB == MkWorld([a1 |-> [NoTags EXCEPT !.v1 = "M1", !.ix = "IX"], a2 |-> [NoTags EXCEPT !.v1 = "M1"],
                    b1 |-> NoTags, lay |-> [NoTags EXCEPT !.v1 = "M2"]])
-Worlds == [A |-> WorldA, B |-> WorldB]
+\* N: the layout directory does not exist at all
+WorldN == MkWorld([a1 |-> [NoTags EXCEPT !.v1 = "M1", !.ix = "IX"], a2 |-> NoTags,
+                   b1 |-> [NoTags EXCEPT !.v1 = "M2"], lay |-> NoTags])
+Worlds == [A |-> WorldA, B |-> WorldB, N |-> WorldN]
 Exists(w, l) == w.obj[l] # {}
 TagSeq(w, l) == SelectSeq(TagOrder, LAMBDA t : w.tag[l][t] # None)
 
@@ -128,16 +131,18 @@ Fail(w, e) == [ok |-> FALSE, val |-> "err", w |-> w, e |-> e, tar |-> FALSE]
 Ok(v, w, e) == [ok |-> TRUE, val |-> v, w |-> w, e |-> e, tar |-> FALSE]
 Skip(op, dry) == dry /\ op \in Gated          \* the dry-run gate of a write binding
 
+\* repo.ls+limit = repo.ls(host, {limit = 1}): the first page of one entry
 RepoLs(st, w, e) ==
+  LET all == SelectSeq(<<"a1", "a2", "b1">>, LAMBDA l : RegOf[l] = st.l1 /\ Exists(w, l)) IN
   IF st.l1 \notin Regs THEN Fail(w, e)
-  ELSE Ok(Join(SelectSeq(<<"a1", "a2", "b1">>, LAMBDA l : RegOf[l] = st.l1 /\ Exists(w, l))), w, e)
+  ELSE Ok(Join(IF st.op = "repo.ls+limit" /\ all # <<>> THEN <<all[1]>> ELSE all), w, e)
 
 TagLs(st, w, e) ==
   LET r == RefArg(st.l1, st.t1, e) IN
   IF ~Valid(r) \/ ~Exists(w, r.loc) THEN Fail(w, e) ELSE Ok(Join(TagSeq(w, r.loc)), w, e)
 
 ManifestGet(st, w, e) ==
-  LET r == IF st.op = "m:get" THEN RefArg("$m", "", e) ELSE RefArg(st.l1, st.t1, e)
+  LET r == IF st.op \in {"m:get", "m:head"} THEN RefArg("$m", "", e) ELSE RefArg(st.l1, st.t1, e)
       id == Lookup(w, r)
       head == st.op \in ManifestHeadOps
       rid == IF head \/ st.op \in ManifestListOps THEN id ELSE Resolve(w, r.loc, id, st.l2) IN
@@ -152,11 +157,14 @@ MExport(st, w, e) ==
 CExport(st, w, e) == IF e.c.id = None THEN Fail(w, e) ELSE Ok(e.c.id, w, e)
 MRateLimit(st, w, e) == IF e.m.id = None THEN Fail(w, e) ELSE Ok("ratelimit", w, e)
 RateLimitWait(st, w, e) ==
-  LET r == RefArg(st.l1, st.t1, e) IN IF Lookup(w, r) = None THEN Fail(w, e) ELSE Ok("true", w, e)
+  LET r == IF st.op = "m:ratelimitWait" THEN RefArg("$m", "", e) ELSE RefArg(st.l1, st.t1, e) IN
+  IF Lookup(w, r) = None THEN Fail(w, e) ELSE Ok("true", w, e)
 
+\* the method forms <blob>:get / <blob>:head hand the blob object to checkReference, which
+\* refuses it: they always fail (like <blob>:put)
 BlobGet(st, w, e) ==
   LET r == RefArg(st.l1, st.t1, e) IN
-  IF ~Valid(r) \/ st.l2 \notin w.obj[r.loc] THEN Fail(w, e)
+  IF st.op \in {"b:get", "b:head"} \/ ~Valid(r) \/ st.l2 \notin w.obj[r.loc] THEN Fail(w, e)
   ELSE Ok("blob", w, [e EXCEPT !.b = [id |-> st.l2, loc |-> r.loc, rd |-> st.op = "blob.get"]])
 
 ReferenceNew(st, w, e) ==
@@ -166,7 +174,8 @@ RefTag(st, w, e) ==
   ELSE IF st.l2 = "" THEN Ok(e.r.tag, w, e)
   ELSE Ok(RefStr([e.r EXCEPT !.tag = st.l2]), w, [e EXCEPT !.r.tag = st.l2])
 RefDigest(st, w, e) == IF ~Valid(e.r) THEN Fail(w, e) ELSE Ok(IF e.r.tag \in Mids THEN e.r.tag ELSE "", w, e)
-ReferenceClose(st, w, e) == IF ~Valid(RefArg(st.l1, st.t1, e)) THEN Fail(w, e) ELSE Ok("closed", w, e)
+ReferenceClose(st, w, e) ==
+  IF ~Valid(IF st.op = "r:close" THEN e.r ELSE RefArg(st.l1, st.t1, e)) THEN Fail(w, e) ELSE Ok("closed", w, e)
 
 TagDelete(st, w, e, dry) ==
   LET r == RefArg(st.l1, st.t1, e) IN
@@ -200,7 +209,8 @@ BlobPut(st, w, e, dry) ==
       id == CASE st.l2 = "$b" -> IF e.b.rd THEN e.b.id ELSE None
               [] st.l2 = "$c" -> e.c.id
               [] OTHER -> "S" IN
-  IF st.op = "b:put" \/ ~Valid(r) \/ id = None THEN Fail(w, e)
+  \* (a string content is read with CheckString(1), the reference: an object there is an error)
+  IF st.op = "b:put" \/ ~Valid(r) \/ id = None \/ (id = "S" /\ st.l1 \in {"$r", "$m", "$c", "@"}) THEN Fail(w, e)
   ELSE IF Skip(st.op, dry) THEN Ok("blob:" \o id, w, IF st.l2 = "$b" THEN [e EXCEPT !.b.rd = FALSE] ELSE e)
   ELSE Ok("blob:" \o id, [w EXCEPT !.obj[r.loc] = @ \cup {id}], IF st.l2 = "$b" THEN [e EXCEPT !.b.rd = FALSE] ELSE e)
 
@@ -229,7 +239,7 @@ CopyIn(st, w, e, dry) ==
       id == Lookup(w, src) IN
   IF Skip(st.op, dry) THEN Ok("done", w, e)
   ELSE IF id = None THEN Fail(w, e)
-  ELSE Ok("done", [w EXCEPT !.obj[tgt.loc] = @ \cup Closure(id),
+  ELSE Ok("done", [w EXCEPT !.obj[tgt.loc] = @ \cup (IF st.op = "image.copy+pf" THEN Closure(id) \ Closure("M2") ELSE Closure(id)),
                             !.tag[tgt.loc] = IF tgt.tag \in TagNames THEN [@ EXCEPT ![tgt.tag] = id] ELSE @], e)
 
 ImportPre(st, w, e) == IF Valid(RefArg(st.l1, st.t1, e)) THEN Ok("", w, e) ELSE Fail(w, e)
@@ -252,18 +262,18 @@ Stub(st, w, e) == Ok("stub", w, e)
 \* outcome of a statement that is not throttled
 Exec(st, w, e, dry) ==
   IF dry /\ st.op \in StubReads THEN Stub(st, w, e)
-  ELSE CASE st.op = "repo.ls" -> RepoLs(st, w, e)
+  ELSE CASE st.op \in {"repo.ls", "repo.ls+limit"} -> RepoLs(st, w, e)
     [] st.op = "tag.ls" -> TagLs(st, w, e)
     [] st.op \in ManifestGetOps \cup ManifestListOps \cup ManifestHeadOps -> ManifestGet(st, w, e)
     [] st.op = "m:export" -> MExport(st, w, e)
     [] st.op = "c:export" -> CExport(st, w, e)
     [] st.op = "m:ratelimit" -> MRateLimit(st, w, e)
-    [] st.op = "image.ratelimitWait" -> RateLimitWait(st, w, e)
-    [] st.op \in {"blob.get", "blob.head"} -> BlobGet(st, w, e)
+    [] st.op \in {"image.ratelimitWait", "m:ratelimitWait"} -> RateLimitWait(st, w, e)
+    [] st.op \in {"blob.get", "blob.head", "b:get", "b:head"} -> BlobGet(st, w, e)
     [] st.op = "reference.new" -> ReferenceNew(st, w, e)
     [] st.op = "r:tag" -> RefTag(st, w, e)
     [] st.op = "r:digest" -> RefDigest(st, w, e)
-    [] st.op = "reference.close" -> ReferenceClose(st, w, e)
+    [] st.op \in {"reference.close", "r:close"} -> ReferenceClose(st, w, e)
     [] st.op = "tag.delete" -> TagDelete(st, w, e, dry)
     [] st.op = "m:delete" -> MDelete(st, w, e, dry)
     [] st.op \in {"manifest.put", "m:put"} -> ManifestPut(st, w, e, dry)
